@@ -40,7 +40,7 @@ Proof.
   intros HW Hs. apply tstep_cases in Hs as [[_ Hs]|[[_ Hs]|(i & p & _ & Hp & Hs)]].
   - (* loop thread: it is never left parked with a non-empty queue *)
     unfold wake_ok. intros Hq Hl. exfalso. revert Hs Hq Hl. unfold lstep.
-    destruct (loop c) as [|wl| | |x| | |ver k| | | | |];
+    destruct (loop c) as [|wl| | |x| | | | |];
       repeat match goal with
              | |- context [if ?b then _ else _] => destruct b eqn:?
              | |- context [match ?x with _ => _ end] => destruct x eqn:?
@@ -92,7 +92,7 @@ Theorem loop_runs_when_queued m0 l0 pipe0 nmsgs s :
   tstep Loop c <> None.
 Proof.
   intros c Hst Hq Hnp. cbn [tstep]. unfold lstep.
-  destruct (loop c) as [|wl| | |x| | |ver k| | | | |] eqn:El; try discriminate Hst; try discriminate.
+  destruct (loop c) as [|wl| | |x| | | | |] eqn:El; try discriminate Hst; try discriminate.
   - destruct (0 <? pipe c)%nat eqn:Ep; [discriminate|]. destruct wl; [discriminate|].
     exfalso. destruct (wake_run m0 l0 pipe0 nmsgs s Hq El) as [H|(i & p & Hi & Hp)].
     + apply Nat.ltb_ge in Ep. fold c in H. lia.
@@ -136,8 +136,8 @@ Proof.
   induction q as [|x q IH]; intros c Hq Hl Hk.
   - cbn. unfold lstep. rewrite Hl, Hq. eexists; split; [reflexivity|]. cbn. rewrite app_nil_r. repeat split; assumption.
   - replace (2 * length (x :: q) + 1)%nat with (2 + (2 * length q + 1))%nat by (cbn; lia).
-    set (c1 := mkConf (last_mid c) (mid_lock c) q (S (qver c)) (pipe c) (Some k0) (nconn c)
-                      (wire c ++ [(k0, x)]) LPop (pubs c) (timeouts c) (crashed c) (alloc_log c) (marked c)).
+    set (c1 := mkConf (last_mid c) (mid_lock c) q (pipe c) (Some k0) (nconn c)
+                      (wire c ++ [(k0, x)]) LPop (pubs c) (timeouts c) (alloc_log c) (marked c)).
     assert (H2 : loop_n 2 c = Some c1).
     { cbn. unfold lstep at 1. rewrite Hl, Hq. unfold lstep; cbn. rewrite Hk. reflexivity. }
     destruct (IH c1 eq_refl eq_refl eq_refl) as (c' & Hn & E1 & E2 & E3 & E4 & E5 & E6 & E7).
@@ -158,7 +158,7 @@ Proof.
   destruct (HInv_run m0 l0 pipe0 nmsgs s Hm Hs0 Hi0) as (Hst & Hk & _). fold c in Hst, Hk.
   pose proof (wake_run m0 l0 pipe0 nmsgs s) as HW. fold c in HW.
   unfold flight.
-  destruct (loop c) as [|wl| | |x| | |ver k| | | | |] eqn:El; try discriminate Hst; cbn [in_send app].
+  destruct (loop c) as [|wl| | |x| | | | |] eqn:El; try discriminate Hst; cbn [in_send app].
   - (* LWant *)
     destruct (out_packet c) as [|y q] eqn:Eq.
     + exists O, c. cbn. rewrite El, Eq, app_nil_r. repeat split; reflexivity.
@@ -168,8 +168,8 @@ Proof.
       destruct (0 <? pipe c)%nat eqn:Ep.
       * set (c2 := set_loop c LDrain).
         assert (H2 : loop_n 1 c1 = Some c2) by (cbn [loop_n]; unfold lstep, c1, set_loop; cbn [loop pipe]; rewrite Ep; reflexivity).
-        set (c3 := mkConf (last_mid c) (mid_lock c) (out_packet c) (qver c) (pipe c - Nat.min (pipe c) recv_max)%nat
-                          (sock c) (nconn c) (wire c) LPop (pubs c) (timeouts c) (crashed c) (alloc_log c) (marked c)).
+        set (c3 := mkConf (last_mid c) (mid_lock c) (out_packet c) (pipe c - Nat.min (pipe c) recv_max)%nat
+                          (sock c) (nconn c) (wire c) LPop (pubs c) (timeouts c) (alloc_log c) (marked c)).
         assert (H3 : loop_n 1 c2 = Some c3) by reflexivity.
         destruct (drain_from_pop 1 (y :: q) c3 Eq eq_refl Hk) as (c' & Hn & E1 & E2 & E3 & E4 & E5 & _).
         exists (1 + (1 + (1 + (2 * length (y :: q) + 1))))%nat, c'.
@@ -185,8 +185,8 @@ Proof.
     destruct (0 <? pipe c)%nat eqn:Ep.
     + set (c2 := set_loop c LDrain).
       assert (H2 : loop_n 1 c = Some c2) by (cbn [loop_n]; unfold lstep; rewrite El, Ep; reflexivity).
-      set (c3 := mkConf (last_mid c) (mid_lock c) (out_packet c) (qver c) (pipe c - Nat.min (pipe c) recv_max)%nat
-                        (sock c) (nconn c) (wire c) LPop (pubs c) (timeouts c) (crashed c) (alloc_log c) (marked c)).
+      set (c3 := mkConf (last_mid c) (mid_lock c) (out_packet c) (pipe c - Nat.min (pipe c) recv_max)%nat
+                        (sock c) (nconn c) (wire c) LPop (pubs c) (timeouts c) (alloc_log c) (marked c)).
       assert (H3 : loop_n 1 c2 = Some c3) by reflexivity.
       destruct (drain_from_pop 1 (out_packet c) c3 eq_refl eq_refl Hk) as (c' & Hn & E1 & E2 & E3 & E4 & E5 & _).
       exists (1 + (1 + (2 * length (out_packet c) + 1)))%nat, c'.
@@ -207,8 +207,8 @@ Proof.
            ++ apply Nat.ltb_ge in Ep. lia.
            ++ exact (Hquiet i p Hi Hp).
   - (* LDrain *)
-    set (c3 := mkConf (last_mid c) (mid_lock c) (out_packet c) (qver c) (pipe c - Nat.min (pipe c) recv_max)%nat
-                      (sock c) (nconn c) (wire c) LPop (pubs c) (timeouts c) (crashed c) (alloc_log c) (marked c)).
+    set (c3 := mkConf (last_mid c) (mid_lock c) (out_packet c) (pipe c - Nat.min (pipe c) recv_max)%nat
+                      (sock c) (nconn c) (wire c) LPop (pubs c) (timeouts c) (alloc_log c) (marked c)).
     assert (H3 : loop_n 1 c = Some c3) by (cbn [loop_n]; unfold lstep; rewrite El; reflexivity).
     destruct (drain_from_pop 1 (out_packet c) c3 eq_refl eq_refl Hk) as (c' & Hn & E1 & E2 & E3 & E4 & E5 & _).
     exists (1 + (2 * length (out_packet c) + 1))%nat, c'.
@@ -219,8 +219,8 @@ Proof.
     exists (2 * length (out_packet c) + 1)%nat, c'. split; [exact Hn|].
     rewrite E2. cbn [in_send]. repeat split; assumption.
   - (* LSend x *)
-    set (c1 := mkConf (last_mid c) (mid_lock c) (out_packet c) (qver c) (pipe c) (Some 1) (nconn c)
-                      (wire c ++ [(1, x)]) LPop (pubs c) (timeouts c) (crashed c) (alloc_log c) (marked c)).
+    set (c1 := mkConf (last_mid c) (mid_lock c) (out_packet c) (pipe c) (Some 1) (nconn c)
+                      (wire c ++ [(1, x)]) LPop (pubs c) (timeouts c) (alloc_log c) (marked c)).
     assert (H1 : loop_n 1 c = Some c1) by (cbn [loop_n]; unfold lstep; rewrite El, Hk; reflexivity).
     destruct (drain_from_pop 1 (out_packet c) c1 eq_refl eq_refl eq_refl) as (c' & Hn & E1 & E2 & E3 & E4 & E5 & _).
     exists (1 + (2 * length (out_packet c) + 1))%nat, c'.
